@@ -125,3 +125,14 @@ Definition attach (local stream : option N) : option N * bool :=
            | None, None => true
            | _, _ => false
            end).
+
+(* ---------- right after the acquisition (store.go monitorLeaseAsPrimary) ---------- *)
+(* the lease service's cluster id is read once more: none = the node initialises it with its own (or a new) id; otherwise it
+   has to be the node's stored id.  Returns whether the node goes on to be primary, and the id the service has afterwards
+   (0 stands for a freshly generated id). *)
+Definition post_acquire (local leaser : option N) : bool * option N :=
+  match leaser with
+  | None => (true, Some (match local with Some a => a | None => 0 end))
+  | Some b => (match local with Some a => a =? b | None => false end, Some b)
+  end.
+
